@@ -819,6 +819,12 @@ impl<'a> UserModel<'a> {
                     self.model.delete_sheet(*sheet)?;
                     if *sheet > 0 {
                         self.set_selected_sheet(*sheet - 1)?;
+                    } else {
+                        // the selection must stay on an existing sheet
+                        let last = self.model.workbook.worksheets.len() as u32 - 1;
+                        if self.get_selected_sheet() > last {
+                            self.set_selected_sheet(last)?;
+                        }
                     }
                 }
                 Diff::NewSheet { index, name } => {
